@@ -96,6 +96,11 @@ type Job struct {
 	// (Queue-like processors wait on the engine's clock).
 	Gateway   string `json:"gateway_config,omitempty"`
 	RealClock bool   `json:"real_clock,omitempty"`
+	// Repeat: run the validator path and (when some run accepted) the gateway's
+	// load this many ADDITIONAL times.  Both iterate over Go maps of flows, so a
+	// verdict that depends on the order in which flows are built shows as runs that
+	// disagree; "accepted" = some validator run accepted, "loads" = every load succeeded.
+	Repeat int `json:"repeat,omitempty"`
 }
 
 // JobResult as reassembled by the parent.
@@ -107,6 +112,7 @@ type JobResult struct {
 	EngineText string      `json:"engine_text,omitempty"`
 	Txns       []TxnResult `json:"txns,omitempty"`
 	CrashText  string      `json:"crash_text,omitempty"` // tail of the dead child's stderr
+	Runs       string      `json:"runs,omitempty"`       // Repeat > 0: how the repeated runs went
 }
 
 // one line of the child's result file
@@ -117,6 +123,7 @@ type line struct {
 	OK    bool       `json:"ok,omitempty"`
 	Text  string     `json:"text,omitempty"`
 	Panic bool       `json:"panic,omitempty"`
+	Runs  string     `json:"runs,omitempty"`
 	Res   *TxnResult `json:"res,omitempty"`
 }
 
@@ -261,21 +268,45 @@ func childMain(batchFile, resultFile string) {
 		} else {
 			context_manager.Get().SetMockClock()
 		}
-		// the standalone validator's path
-		err, pan, txt := guarded(func() error {
-			vs, err := streams.NewValidationStream(base)
-			if err != nil {
-				return err
+		// the standalone validator's path (1 + Repeat times; accepted = some run accepted)
+		var err error
+		var pan bool
+		var txt string
+		nAcc, firstRej, runs := 0, "", ""
+		for i := 0; i <= j.Repeat && !pan; i++ {
+			var e error
+			e, pan, txt = guarded(func() error {
+				vs, err := streams.NewValidationStream(base)
+				if err != nil {
+					return err
+				}
+				return vs.Initialize()
+			})
+			if pan {
+				break
 			}
-			return vs.Initialize()
-		})
+			if e == nil {
+				nAcc++
+			} else if firstRej == "" {
+				firstRej = e.Error()
+			}
+		}
+		if !pan && nAcc == 0 {
+			err = fmt.Errorf("%s", firstRej)
+		}
+		if j.Repeat > 0 && !pan {
+			runs = fmt.Sprintf("validator accepted in %d of %d runs", nAcc, j.Repeat+1)
+			if nAcc > 0 && firstRej != "" {
+				runs += " (rejected with: " + firstRej + ")"
+			}
+		}
 		switch {
 		case pan:
 			emit(line{ID: j.ID, What: "validated", Panic: true, Text: txt})
 		case err != nil:
-			emit(line{ID: j.ID, What: "validated", OK: false, Text: err.Error()})
+			emit(line{ID: j.ID, What: "validated", OK: false, Text: err.Error(), Runs: runs})
 		default:
-			emit(line{ID: j.ID, What: "validated", OK: true})
+			emit(line{ID: j.ID, What: "validated", OK: true, Runs: runs})
 		}
 		if pan || err != nil {
 			emit(line{ID: j.ID, What: "done"})
@@ -286,21 +317,41 @@ func childMain(batchFile, resultFile string) {
 		environment.SetQuotasDirectory(filepath.Join(base, "quotas"))
 		environment.SetPathParamsDirectory(filepath.Join(base, "path_params"))
 		var st *streams.Stream
-		err, pan, txt = guarded(func() error {
+		nFail := 0
+		err = nil
+		for i := 0; i <= j.Repeat && !pan; i++ {
 			var e error
-			st, e = streams.NewStream()
-			if e != nil {
-				return e
+			var s1 *streams.Stream
+			e, pan, txt = guarded(func() error {
+				var e error
+				s1, e = streams.NewStream()
+				if e != nil {
+					return e
+				}
+				return s1.Initialize()
+			})
+			if pan {
+				break
 			}
-			return st.Initialize()
-		})
+			if e != nil {
+				nFail++
+				if err == nil {
+					err = e
+				}
+			} else {
+				st = s1
+			}
+		}
+		if j.Repeat > 0 && !pan {
+			runs += fmt.Sprintf("; gateway load failed in %d of %d runs", nFail, j.Repeat+1)
+		}
 		switch {
 		case pan:
 			emit(line{ID: j.ID, What: "engine", Panic: true, Text: txt})
 		case err != nil:
-			emit(line{ID: j.ID, What: "engine", OK: false, Text: err.Error()})
+			emit(line{ID: j.ID, What: "engine", OK: false, Text: err.Error(), Runs: runs})
 		default:
-			emit(line{ID: j.ID, What: "engine", OK: true})
+			emit(line{ID: j.ID, What: "engine", OK: true, Runs: runs})
 		}
 		if pan || err != nil {
 			emit(line{ID: j.ID, What: "done"})
